@@ -293,7 +293,7 @@ class C17(Property):
             else:
                 p[2] = rng.choice(free)
         # [start, end, product, core offset]: protoclusters of one product on the same coordinates differ in their
-        # cores (D61: the core is part of the key) — except in the 5 % `tie` cases, where some share the core as well
+        # cores (D64: the core is part of the key) — except in the 5 % `tie` cases, where some share the core as well
         protos = [[p[0], p[1], p[2], i] for i, p in enumerate(protos)]
         if tie:
             for i, p in enumerate(protos):
@@ -761,8 +761,8 @@ class C17(Property):
         spec = same and bool(drv.get("spec", True))
         if kind == "uniq" and (drv["tie"] or drv["tie_nocore"]):
             # `tie`: two members agree on the whole key — outside the theorem's hypothesis;
-            # `tie_nocore`: same product, same coordinates, different cores — decided by the core since D61 (the
-            # model); a tree without fixes/D61 lists them in address order: the open finding until it is applied.
+            # `tie_nocore`: same product, same coordinates, different cores — decided by the core since D64 (the
+            # model); a tree without fixes/D64 lists them in address order: the open finding until it is applied.
             # In both classes any listing in (start, -len, product) order is accepted.
             tags.append("key-tie" if drv["tie"] else "key-tie-without-core")
             weak = bool(drv["spec"]) or bool(drv["spec_nocore"])
@@ -952,7 +952,7 @@ class C17(Property):
         case = self.rand_uniq(rng)
         case["kind"] = "region"
         # keep the child cases inside the theorem's scope: same-key ties are the in-process class
-        # (and, as long as fixes/D61 is not in the tree, same-product protoclusters on the same coordinates too)
+        # (and, as long as fixes/D64 is not in the tree, same-product protoclusters on the same coordinates too)
         seen = set()
         kept = []
         for orig, p in enumerate(case["protos"]):
